@@ -171,6 +171,17 @@ func (s *Sim) OracleValueCheck(role spectypes.BeaconRole) specqbft.ProposedValue
 	return s.valueCheck(role, s.innerKM)
 }
 
+// ArmedFaults is the number of injected faults (key manager, beacon node, network) still waiting to fire;
+// a harness compares it before and after an operation to learn whether a fault fired in it.
+func (s *Sim) ArmedFaults() int {
+	return s.KM.FailBeacon + s.KM.FailRoot + s.BN.FailDomain + s.Net.FailNext + s.Net.LoseNext
+}
+
+// DisarmFaults clears every pending injected fault.
+func (s *Sim) DisarmFaults() {
+	s.KM.FailBeacon, s.KM.FailRoot, s.BN.FailDomain, s.Net.FailNext, s.Net.LoseNext = 0, 0, 0, 0, 0
+}
+
 // NextOp starts the next operation and returns its index.
 func (s *Sim) NextOp() int { s.Op++; return s.Op }
 
